@@ -6,6 +6,8 @@ Calls are replaced by the callee's sidecar contract when it has one, small in-re
 inlined, dependencies go through the registry of assumed contracts.
 """
 import ast
+import os
+import time
 import operator
 from fractions import Fraction
 
@@ -152,6 +154,11 @@ class Exec:
         self.ext_may_raise = False
         self.scope = None                 # finite-scope pass: dict of concrete sizes
         self.max_paths = self.opts.get("max_paths", 4000)
+        # wall-clock budget of the symbolic execution of ONE function variant (a changed body may loop for ever on concrete
+        # data, e.g. a parent walk over a cyclic table): exceeded => the function is reported undecided, never silently passed
+        self.gen_budget_s = float(os.environ.get("PYVC_GEN_BUDGET_S", self.opts.get("gen_budget_s", 900)))
+        self.gen_t0 = time.time()
+        self.gen_ticks = 0
         self.inline_depth = 0
         self.cur_func = None
         self._only_augassigned = set()
@@ -367,6 +374,11 @@ class Exec:
         if params.posonlyargs:
             raise Unsupported("positional-only parameters")
         names = [a.arg for a in params.args]
+        for d in func.decorators:
+            # a decorator replaces the function: only the binding decorators are modelled; anything else (caching, wrapping ...)
+            # is not executed as the plain body
+            if d not in ("staticmethod", "classmethod", "property") and not d.endswith(".setter"):
+                raise Unsupported("decorator @%s on %s is not modelled (the function is not its plain body)" % (d, func.name))
         is_static = "staticmethod" in func.decorators
         is_classm = "classmethod" in func.decorators
         pos = list(args)
@@ -464,6 +476,9 @@ class Exec:
             self.exec_stmt(st, frame)
 
     def exec_stmt(self, st, fr):
+        self.gen_ticks += 1
+        if self.gen_ticks % 256 == 0 and time.time() - self.gen_t0 > self.gen_budget_s:
+            raise Unsupported("generation budget of %d s exceeded after %d paths (statement %s)" % (self.gen_budget_s, self.paths, self.where(st)))
         m = getattr(self, "st_" + type(st).__name__, None)
         if m is None:
             raise Unsupported("statement %s at %s" % (type(st).__name__, self.where(st)))
